@@ -354,6 +354,12 @@ func c15Run(r *tr.Run, cs c15Case) {
 				// the message travels with a context that was derived from the handling of another message
 				msg.SetContext(cqrs.CtxWithOriginalMessage(context.Background(), prev))
 			}
+			if seq%3 == 0 {
+				// ... or with a context that is done already (the delivery was abandoned upstream): dispatch and settlement are the same
+				dctx, dcancel := context.WithCancel(msg.Context())
+				dcancel()
+				msg.SetContext(dctx)
+			}
 			r.Emit("msg", "m", id, "name", name, "wellformed", wellformed, "on", on+1)
 			if !subs[on].Emit("t", msg) {
 				r.Emit("hung", "what", "emit")
@@ -396,7 +402,12 @@ func c15Run(r *tr.Run, cs c15Case) {
 		if cs.Codec == "proto" {
 			garbage = []byte{0xff, 0xff, 0xff, 0x01, 0x02}
 		}
+		trailing := append(append([]byte{}, mm.Payload...), []byte(` {"more":1}`)...) // a complete document followed by more data is not a document
+		if cs.Codec == "proto" {
+			trailing = garbage
+		}
 		if !feed(on, m.NameFromMessage(mm), false, v, garbage) || // malformed payload of a known type
+			!feed(on, m.NameFromMessage(mm), false, v, trailing) ||
 			!feed(on, "foreign.Type", true, nil, mm.Payload) || // foreign type name
 			!feed(on, "", true, nil, mm.Payload) { // no type name at all
 			return
